@@ -152,6 +152,24 @@ func (p *c16) reserved(x *res, words []string, ctx *runner.Ctx) {
 					}
 					x.viol("reserved-word-accepted", feat, fmt.Sprintf("reserved word %q used as a bare attribute name (%s) is accepted: %q", wv, pos.name, expr), wit)
 				}
+				// the update positions through the clients, behind a condition that is FALSE (the item does not exist):
+				// the reserved word makes the request invalid, whatever the condition says - it is not answered with
+				// the failure of the condition, as if the expression were fine
+				if pos.update && vi == 0 && !strings.Contains(pos.name, "path-member") {
+					for _, adapter := range adapt.Adapters {
+						spec := mon.SpecHashOnly("tbl16r")
+						cl, _, ds := freshClient(adapter, spec)
+						if ds != nil {
+							break
+						}
+						o := cl.Do(adapt.Op{Kind: adapt.OpUpdate, Table: spec.Name, Key: val.Item{"h": val.Str("absent")}, Update: expr, Values: neededValues(expr), Cond: "attribute_exists(h)"})
+						x.r.Evals++
+						x.r.Counters["reserved_words_behind_a_false_condition"]++
+						if o.Class == adapt.ClsCondFailed || o.Class == adapt.ClsOK {
+							x.viol("reserved-word-accepted", "behind-a-false-condition/"+pos.name, fmt.Sprintf("[%s] UpdateItem %q with a condition that is false is answered %s: the reserved word %q went unnoticed", adapter, expr, o.Class, wv), wit)
+						}
+					}
+				}
 				// converse through an alias: must be accepted
 				if vi == 0 {
 					aexpr := pos.mk("#w")
